@@ -405,6 +405,21 @@ pub fn structural_one(prop: &str, st: &mut Stats, s: &str, src: Src) {
         st.nontrivial(s.as_bytes(), || sample(s, Some(res), ""));
     }
     if prop == "C09" {
+        // event-level monitor: an error raised while a checkpoint was live, followed by the
+        // rollback of that checkpoint, is a diagnostic that survives rolled-back speculation
+        if run::HOOKS && ex.report.rollbacks_after_error > 0 {
+            st.violation(
+                &Finding::new(
+                    "C09.event",
+                    "error-survived-rollback",
+                    format!(
+                        "{} rollback(s) happened after an error had been raised under the same checkpoint (decisions {})",
+                        ex.report.rollbacks_after_error, ex.report.decisions
+                    ),
+                ),
+                &[s],
+            );
+        }
         if ex.report.errors_under_checkpoint > 0 {
             st.count("executions_with_error_under_checkpoint", 1);
         }
